@@ -27,6 +27,12 @@ ReqOk == Required \subseteq Calls
 Allowed == AllowedProbes(case, sp, sp.top.init, Q.words, 1)
 JustOk == \A cl \in Calls : cl.probe \in Allowed
 
+\* a within-word expression in which one literal text occurs with two different labels
+DupTextIn(g) == \E p, q \in DOMAIN g.item : g.item[p].k = "lit" /\ g.item[q].k = "lit" /\ g.item[p].t = g.item[q].t /\
+                                          Lab(g.item[p]) # Lab(g.item[q])
+\* the word is made of complete tokens of a within-word expression expected here that is not finished by it
+UnfinishedAt(P, w) == \E p \in P \ {END} : sp.top.item[p].k = "sub" /\ InnerIncomplete(case, sp.sub[p], w)
+DupAt(P) == \E p \in P \ {END} : sp.top.item[p].k = "sub" /\ DupTextIn(sp.sub[p])
 \* classes of the typed words relative to the specification state (diagnosis vocabulary, DESIGN.md 6.4)
 WordClass(P, w) ==
   IF P = FAIL THEN "after_fail"
@@ -34,9 +40,11 @@ WordClass(P, w) ==
        IF lit # {} THEN "literal"
        ELSE IF sub # {} THEN
               (IF \E p \in sub : \E l \in InnerLevels(sp.sub[p]) : InnerReqAt(case, sp.sub[p], w, l) # {}
-               THEN "word_value_with_longer_sibling" ELSE "word_value")
+               THEN "word_value_with_longer_sibling"
+               ELSE IF UnfinishedAt(P, w) THEN "word_value_beside_unfinished_word" ELSE "word_value")
        ELSE IF cmd # {} THEN
-              (IF \E p \in P \ {END} : IsCmdK(sp.top.item[p].k) /\ w \notin CandsOf(case, sp.top.item[p])
+              (IF UnfinishedAt(P, w) THEN "command_candidate_beside_unfinished_word"
+               ELSE IF \E p \in P \ {END} : IsCmdK(sp.top.item[p].k) /\ w \notin CandsOf(case, sp.top.item[p])
                THEN "command_candidate_beside_other_command"
                ELSE IF 32 \in RangeS(w) THEN "command_candidate_with_blank" ELSE "command_candidate")
        ELSE IF star # {} THEN
@@ -47,6 +55,9 @@ WordClass(P, w) ==
        ELSE "fail_foreign"
 RECURSIVE Classes(_, _, _)
 Classes(P, ws, i) == IF i > Len(ws) THEN <<>> ELSE <<WordClass(P, ws[i])>> \o Classes(StepWord(case, sp, P, ws[i]), ws, i + 1)
+\* some within-word expression expected along the typed words has one literal text under two labels
+RECURSIVE DupOnPath(_, _, _)
+DupOnPath(P, ws, i) == IF P = FAIL THEN FALSE ELSE DupAt(P) \/ (i <= Len(ws) /\ DupOnPath(StepWord(case, sp, P, ws[i]), ws, i + 1))
 CursorClass ==
   IF PathP = FAIL THEN "after_fail"
   ELSE IF Q.prefix = <<>> THEN "empty"
@@ -63,9 +74,6 @@ KindOfCand(cd) ==
        ELSE IF \E p \in ps : IsCmdK(sp.top.item[p].k) /\ \E x \in CandsOf(case, sp.top.item[p]) : Strip(x, n) = cd THEN "cmd"
        ELSE IF \E p \in ps : sp.top.item[p].k = "sub" THEN "sub_or_other" ELSE "other"
 
-\* a within-word expression in which one literal text occurs with two different labels
-DupTextIn(g) == \E p, q \in DOMAIN g.item : g.item[p].k = "lit" /\ g.item[q].k = "lit" /\ g.item[p].t = g.item[q].t /\
-                                          Lab(g.item[p]) # Lab(g.item[q])
 CursorDup == PathP # FAIL /\ \E p \in PathP \ {END} : sp.top.item[p].k = "sub" /\ DupTextIn(sp.sub[p])
 
 Failed == (IF RcOk THEN {} ELSE {"rc"}) \cup (IF ReplyGood THEN {} ELSE {"reply"}) \cup
@@ -78,6 +86,7 @@ Report ==
               exprc |-> ExpRc, predicted |-> Pred, missing |-> Pred \ Reply, extra |-> Reply \ Pred,
               missingkinds |-> { KindOfCand(cd) : cd \in Pred \ Reply }, extrakinds |-> { KindOfCand(cd) : cd \in Reply \ Pred },
               required |-> Required \ Calls, unjustified |-> { cl \in Calls : cl.probe \notin Allowed },
-              classes |-> Classes(sp.top.init, Q.words, 1), cursor |-> CursorClass, cursordup |-> CursorDup])>>)
+              classes |-> Classes(sp.top.init, Q.words, 1), cursor |-> CursorClass, cursordup |-> CursorDup,
+              pathdup |-> DupOnPath(sp.top.init, Q.words, 1)])>>)
 Seen == PrintT(<<IF Unclear THEN "SKIPPED" ELSE "VALIDATED", Cases[case].id, qi>>)
 =======================================================================
